@@ -6,7 +6,10 @@ HERE = os.path.dirname(os.path.dirname(os.path.abspath(__file__)))
 REPO = os.environ.get('STDNUM_REPO', '/repo')
 CHECKS = {'A': ['C01', 'C02', 'C03', 'C09', 'C10', 'C11', 'C13', 'C14', 'C15', 'C18'],
           'B': ['C01', 'C05', 'C06', 'C07', 'C15', 'C17'],
-          'C': ['C02', 'C04', 'C05', 'C08', 'C11', 'C12', 'C16', 'C18']}
+          'C': ['C02', 'C04', 'C05', 'C08', 'C11', 'C12', 'C16', 'C18'],
+          'D': ['C01', 'C09', 'C10', 'C11', 'C12', 'C13', 'C14', 'C18'],
+          'E': ['C01', 'C05', 'C06', 'C07', 'C09', 'C15', 'C17'],
+          'F': ['C02', 'C03', 'C04', 'C08', 'C12', 'C14', 'C16']}
 
 
 def main():
@@ -14,7 +17,7 @@ def main():
     only = sys.argv[1:]
     out = {}
     for d in sorted(os.listdir('benign')):
-        if not re.match(r'^[ABC]-\d$', d) or (only and d not in only):
+        if not re.match(r'^[A-F]-\d$', d) or (only and d not in only):
             continue
         patch = os.path.join(HERE, 'benign', d, 'patch.diff')
         for chk in CHECKS[d[0]]:
@@ -30,8 +33,13 @@ def main():
             viol = [ln for ln in text.splitlines() if ln.startswith('VIOLATION') or ln.startswith('MACHINERY')]
             out['%s/%s' % (d, chk)] = {'exit': p.returncode, 'alarms': [v[:300] for v in viol[:5]]}
             print(d, chk, 'exit', p.returncode, viol[:2], flush=True)
-    with open(os.path.join(HERE, 'benign', 'RESULTS.json'), 'w') as fh:
-        json.dump(out, fh, indent=1, sort_keys=True)
+    path = os.path.join(HERE, 'benign', 'RESULTS.json')
+    old = {}
+    if only and os.path.exists(path):
+        old = json.load(open(path))
+    old.update(out)
+    with open(path, 'w') as fh:
+        json.dump(old, fh, indent=1, sort_keys=True)
 
 
 main()
